@@ -27,9 +27,22 @@ with invalid arguments (`ERR_STEPS`), valid calls with warnings-as-errors, and d
 (`POISON_KINDS`, at the first / a middle / the last position) that make some calls raise midway; every failed call
 is caught, must leave the object exactly as it was (`observe`), and the valid calls after it - on the same object
 and on a second object of the class - are judged like any other.
+Round-4 devices: the input container (list / tuple / numpy object array / list subclass / one-shot outer iterators,
+`CONTAINERS`), copies (`COPY_MODES`: copy.copy, deepcopy, pickle round trip) of the input, of the object under test and
+of the returned histogram before use, calls in an unusual process environment (`unusual_environment`) with the global
+state compared before and after every call (`env_state`), and the "can be written to file" clause exercised the way a
+caller would (`gen_write_spec`: bare relative names after chdir into a fresh directory, ./name, sub-directory, blanks and
+non-ASCII in names, comments with CRLF / non-ASCII / trailing blanks, labels that need quoting).
 """
+import contextlib
+import copy
 import csv
+import io
 import json
+import locale
+import pickle
+import random as _random
+import shutil
 import math
 import os
 import tempfile
@@ -86,6 +99,24 @@ ERR_STEPS = {
     "quantity:int": ("mid", lambda: (1.0, 3)), "mid:extra-positional": ("mid", lambda: (1.0, "rapidity", 2)),
 }
 POISON_KINDS = ["unset-E", "E<|pz|", "t<|z|", "duck", "alien"]
+
+# how an object reaches the code: as it is, or as its copy.copy / copy.deepcopy / pickle round trip
+COPY_MODES = [None, None, "copy", "deepcopy", "pickle"]
+# containers for "a list of lists of Particle objects".  The documented type is List[List[Particle]]; sequences that
+# support len / indexing / iteration (tuples, numpy object arrays, list subclasses) work on the clean code and are
+# judged like lists, but a refusal (any exception) of an undocumented container is accepted as an answer.  One-shot
+# OUTER iterators (generator, map) cannot work (the code needs len()).  One-shot INNER iterators are not used: the
+# docs exclude them and the clean code neither rejects nor supports them (the first call consumes them).
+CONTAINERS = ["list", "list", "list", "tuple-outer", "tuple-inner", "tuple-both", "ndarray-outer", "ndarray-both",
+              "list-subclass", "generator-outer", "map-outer"]
+WRITE_NAMES = ["x.csv", "x.csv", "./x.csv", "sub/x.csv", "with space.csv", "dN_d\u03b7 \u00b1.csv", "x"]
+WRITE_COMMENTS = ["# C14", "", "# dN/d\u03b7 \u00b1 \u03c3 (non-ASCII)", "# trailing blanks   ", "# first line\r\n# second line (CRLF)",
+                  "# first line\n# second line", "#\ttab and  double  blanks"]
+UTF8 = locale.getpreferredencoding(False).lower().replace("-", "") == "utf8"
+
+
+class ListSub(list):
+    """a list subclass (admissible wherever a list is)"""
 
 
 # ------------------------------------------------------------------ translator (tie T)
@@ -265,14 +296,135 @@ def bind(name, values, form):
     return args, kwargs
 
 
-def invoke(bo, name, args, kwargs, werr=False):
-    """call like a caller would; werr: warnings are errors for the duration of the call"""
+def env_state():
+    """process-global state a library call has no business changing"""
+    st = np.random.get_state()
+    return dict(cwd=os.getcwd(), random=_random.getstate(), np_random=(st[0], st[1].tobytes(), st[2:]),
+                np_geterr=repr(sorted(np.geterr().items())), np_printoptions=repr(sorted(np.get_printoptions().items())))
+
+
+@contextlib.contextmanager
+def unusual_environment():
+    """a fresh temporary working directory, numpy floating-point errors reported as warnings, non-default numpy print
+    options, advanced `random` / `np.random` global state; everything restored afterwards"""
+    saved = (os.getcwd(), _random.getstate(), np.random.get_state())
+    d = tempfile.mkdtemp(prefix="c14_env_", dir="/tmp")
+    try:
+        os.chdir(d)
+        _random.random()
+        np.random.random(3)
+        with np.errstate(all="warn"), np.printoptions(precision=2, threshold=3, suppress=True, linewidth=20):
+            yield d
+    finally:
+        os.chdir(saved[0])
+        _random.setstate(saved[1])
+        np.random.set_state(saved[2])
+        shutil.rmtree(d, ignore_errors=True)
+
+
+ENV_DIFF = [None]  # what the last call changed in the process-global state (None = nothing)
+
+
+def invoke(bo, name, args, kwargs, werr=False, env=False):
+    """call like a caller would; werr: warnings are errors for the duration of the call; env: the call runs in an
+    unusual environment (see unusual_environment).  Records in ENV_DIFF what the call changed in the global state."""
     with warnings.catch_warnings():
         warnings.simplefilter("error" if werr else "ignore")
-        if werr:
-            return getattr(bo, name)(*args, **kwargs)
-        with np.errstate(all="ignore"):
-            return getattr(bo, name)(*args, **kwargs)
+        with (unusual_environment() if env else contextlib.nullcontext()):
+            with (contextlib.nullcontext() if (werr or env) else np.errstate(all="ignore")):
+                before = env_state()
+                try:
+                    return getattr(bo, name)(*args, **kwargs)
+                finally:
+                    after = env_state()
+                    ENV_DIFF[0] = [k for k in before if before[k] != after[k]] or None
+
+
+def env_check(meth, what):
+    d = ENV_DIFF[0]
+    ENV_DIFF[0] = None
+    if d:
+        return (f"environment-changed:{'+'.join(d)}:{meth}",
+                f"{what} changed process-global state and did not restore it: {d}", dict(changed=d))
+    return None
+
+
+def copied(obj, mode):
+    if mode == "copy":
+        return copy.copy(obj)
+    if mode == "deepcopy":
+        return copy.deepcopy(obj)
+    if mode == "pickle":
+        return pickle.loads(pickle.dumps(obj))
+    return obj
+
+
+def _objarr(items):
+    a = np.empty(len(items), dtype=object)
+    for i, x in enumerate(items):
+        a[i] = x
+    return a
+
+
+def wrap_container(pl, mode):
+    """the nested list as another kind of sequence (same Particle objects)"""
+    if mode in (None, "list"):
+        return pl
+    if mode == "tuple-outer":
+        return tuple(pl)
+    if mode == "tuple-inner":
+        return [tuple(e) for e in pl]
+    if mode == "tuple-both":
+        return tuple(tuple(e) for e in pl)
+    if mode == "ndarray-outer":
+        return _objarr(pl)
+    if mode == "ndarray-both":
+        return _objarr([_objarr(e) for e in pl])
+    if mode == "list-subclass":
+        return ListSub(ListSub(e) for e in pl)
+    if mode == "generator-outer":
+        return (e for e in pl)
+    if mode == "map-outer":
+        return map(list, pl)
+    raise ValueError(mode)
+
+
+def norm_setup(x):
+    """how the objects of a session come about: constructor call form, container of the input, copies of the input
+    and of the BulkObservables object before use"""
+    d = dict(ctor_form="positional", container="list", input_copy=None, bo_copy=None)
+    if isinstance(x, str):
+        d["ctor_form"] = x
+    elif isinstance(x, dict):
+        d.update(x)
+    return d
+
+
+def gen_setup(rng, plain=False):
+    if plain:
+        return norm_setup(rng.choice(["positional", "keyword"]))
+    return dict(ctor_form=rng.choice(["positional", "keyword"]), container=rng.choice(CONTAINERS),
+                input_copy=rng.choice(COPY_MODES), bo_copy=rng.choice(COPY_MODES))
+
+
+def is_plain(setup):
+    s_ = norm_setup(setup)
+    return s_["ctor_form"] == "positional" and s_["container"] == "list" and not s_["input_copy"] and not s_["bo_copy"]
+
+
+def build_session(evs, alias, setup, log=None):
+    """(reference nested lists for the oracle, BulkObservables object, log, setup)"""
+    st = norm_setup(setup)
+    pl = copied(make_particles(evs, alias), st["input_copy"])
+    bo = new_bo(wrap_container(pl, st["container"]), st["ctor_form"])
+    if st["container"] not in ("generator-outer", "map-outer"):  # one-shot iterators cannot be copied / pickled
+        bo = copied(bo, st["bo_copy"])
+    return pl, bo, ([] if log is None else log), st
+
+
+def refused(shared_setup, real):
+    """an undocumented container was refused (any exception) - nothing to judge"""
+    return shared_setup.get("container", "list") != "list" and real[0] in ("err", "exc") and not str(real[1]).startswith("shape")
 
 
 def quantity_values(pl, name):
@@ -322,14 +474,14 @@ def rejected(b, real):
     return b.get("flavour") in REJECTABLE and (real[:2] == ("err", "value") or real[:2] == ("exc", "TypeError"))
 
 
-def call_dn(pl, meth, b, bo=None, form=None, werr=False):
+def call_dn(pl, meth, b, bo=None, form=None, werr=False, env=False):
     """-> ('ok', bins, hist_object) | ('err', 'value') | ('exc', name)"""
     bo = bo if bo is not None else new_bo(pl)
     if form is None:
         form = "defaults-omitted" if b["kind"] == "default" else "positional"
     args, kwargs = bind(meth, dict(bin_properties=bins_arg(b)), form)
     try:
-        h = invoke(bo, meth, args, kwargs, werr)
+        h = invoke(bo, meth, args, kwargs, werr, env)
     except ValueError:
         return ("err", "value", None)
     except Exception as e:  # noqa: BLE001
@@ -340,14 +492,14 @@ def call_dn(pl, meth, b, bo=None, form=None, werr=False):
     return ("ok", [float(x) for x in arr[0]], h)
 
 
-def call_mid(pl, meth, w, flavour, use_default=False, bo=None, form=None, werr=False):
+def call_mid(pl, meth, w, flavour, use_default=False, bo=None, form=None, werr=False, env=False):
     bo = bo if bo is not None else new_bo(pl)
     if use_default:
         args, kwargs = [], {}
     else:
         args, kwargs = bind(meth, dict(y_width=w, quantity=flavour), form)
     try:
-        v = invoke(bo, meth, args, kwargs, werr)
+        v = invoke(bo, meth, args, kwargs, werr, env)
     except ValueError:
         return ("err", "value")
     except Exception as e:  # noqa: BLE001
@@ -673,7 +825,11 @@ def correspond(ctx):
                 "bit-equal to particle values, numpy-scalar items) / numpy arrays (plus every flavour x method on a fixed "
                 "sample); every second sample runs all its calls on ONE re-used BulkObservables object, with failing calls "
                 "(invalid arguments, warnings-as-errors) caught in between; every call in a random equivalent call form "
-                "(positional / keyword / reversed keywords / mixed / documented defaults omitted); window widths incl. "
+                "(positional / keyword / reversed keywords / mixed / documented defaults omitted); the input as list / tuple / "
+                "numpy object array / list subclass, the object under test as it is or as its copy.copy / deepcopy / pickle "
+                "round trip; some calls in an unusual environment (fresh cwd, np.seterr warn, print options, advanced RNG "
+                "state) with the global state checked before/after; returned histograms written under bare relative names "
+                "after chdir, with non-ASCII / CRLF / trailing-blank free text; window widths incl. "
                 "a particle exactly on the edge and invalid widths; three rapidity flavours. "
                 "non-trivial (dN/dx) = >=2 events, some bin filled, and an empty event or a value outside the range or "
                 "exactly on an edge; (mid) = >=2 events, a particle inside and one outside the window or an empty event")
@@ -691,6 +847,15 @@ def correspond(ctx):
         "(snapshot of identities and data bytes; write_to_file + parse), they are not Lean theorems",
         "C14: binnings given as numpy arrays / lists of numpy ints are outside the documented API; a TypeError/ValueError for "
         "them is accepted, a returned histogram is checked like any other",
+        "C14 containers: the documented input type is List[List[Particle]]; tuples, numpy object arrays and list subclasses are "
+        "accepted by the code and judged like lists, a refusal of such an undocumented container is accepted as an answer; one-shot "
+        "OUTER iterators (generator, map) are refused by the code (len()), which is accepted; one-shot INNER iterators are NOT "
+        "exercised: the docs exclude them and the clean code neither rejects nor supports them (the first call consumes them, e.g. "
+        "[iter(ev)...]: second dNdpT all zeros) - the property's 'particle lists' do not cover them",
+        "C14 environment: the statement says nothing about process-global state; that a call leaves cwd, random / np.random "
+        "state, np.geterr() and numpy print options as it found them is checked as a general contract (key environment-changed:...)",
+        "C14 text: non-ASCII file names / comments / labels are exercised only under a UTF-8 locale (write_to_file opens the file "
+        f"without an explicit encoding); this run: {'UTF-8' if UTF8 else 'not UTF-8, ASCII only'}",
         "C14 tie T: translated = statements of _differential_yield after argument-type validation, the wrappers' quantity and "
         "default binning, the three mid-rapidity functions after argument-type validation. NOT translated (recognised, "
         "hashed): isinstance/callable validation, warnings, _check_quantity_is_method, class ReadOnlyList (checked to delegate "
@@ -708,9 +873,18 @@ def correspond(ctx):
         pl = make_particles(evs, alias)
         snap = snapshot(pl)
         reuse = idx % 2 == 1
-        ctor_form = rng.choice(["positional", "keyword"])
-        bo = new_bo(pl, ctor_form) if reuse else None
+        setup = gen_setup(rng, plain=rng.random() < 0.5)
+        setup["input_copy"] = None
+        if setup["container"] in ("generator-outer", "map-outer"):
+            setup["container"] = "tuple-both"
+
+        def make_bo():
+            """the object under test: constructor call form, container of the input, copy / pickle round trip before use"""
+            return copied(new_bo(wrap_container(pl, setup["container"]), setup["ctor_form"]), setup["bo_copy"])
+
+        bo = make_bo() if reuse else None
         ctx.count(f"sample/{tag}/{'reused-object' if reuse else 'fresh-objects'}")
+        ctx.count(f"sample/setup/container={setup['container']}/object={setup['bo_copy'] or 'as-is'}")
 
         def provoke():
             """error path on the re-used object: a call that raises (invalid argument, or a valid call with warnings as
@@ -767,9 +941,15 @@ def correspond(ctx):
             provoke()
             form = rng.choice(CALL_FORMS)
             ctx.count(f"call-form/{form}")
-            real = call_dn(pl, meth, b, bo if bo is not None else new_bo(pl, ctor_form), form)
+            real = call_dn(pl, meth, b, bo if bo is not None else make_bo(), form, env=rng.random() < 0.15)
+            r_env = env_check(meth, f"{meth}({bins_arg(b)!r})")
+            if r_env:
+                brk(r_env[1], case=dict(events=evs, alias=alias, method=meth, bins=b))
             if real[0] != "ok" and not str(real[1]).startswith("shape"):
                 note_failed(evs, alias, dict(method=meth, bins=b, form=form))
+            if refused(setup, real):
+                ctx.count(f"sample/setup/container={setup['container']}/refused")
+                continue
             if rejected(b, real):
                 ctx.count(f"{meth}/bins={b['flavour']}/refused-by-validation")
                 ctx.case(("dn-refused", meth, json.dumps(b)), False)
@@ -824,9 +1004,16 @@ def correspond(ctx):
                 provoke()
                 form = rng.choice(CALL_FORMS)
                 ctx.count(f"call-form/{form}")
-                real = call_mid(pl, meth, w, flavour, use_default, bo if bo is not None else new_bo(pl, ctor_form), form)
+                real = call_mid(pl, meth, w, flavour, use_default, bo if bo is not None else make_bo(), form,
+                                env=rng.random() < 0.15)
+                r_env = env_check(meth, f"{meth}({w!r}, {flavour!r})")
+                if r_env:
+                    brk(r_env[1], case=dict(events=evs, alias=alias, method=meth))
                 if real[0] != "ok":
                     note_failed(evs, alias, dict(method=meth, y_width=w, quantity=flavour, form=form))
+                if refused(setup, real) and real != ("err", "value"):
+                    ctx.count(f"sample/setup/container={setup['container']}/refused")
+                    continue
                 op = "yield" if xname is None else "mean"
                 lines.append(f"{op}\t{f2h(float(w))}\t{enc_mid_events(y, x)}")
                 marg = dict(y_width=w, quantity=flavour, default_args=use_default)
@@ -954,30 +1141,78 @@ def ref_mean(y, x, w):
     return sum(means) / len(means) if means else Fraction(0)
 
 
-_WRITE_TICK = [0]
+def gen_write_spec(rng):
+    """where and how the caller writes the histogram it was handed: file name (bare relative name in the current
+    directory, ./name, name in an existing sub-directory, blanks, non-ASCII), absolute path or relative to a fresh
+    working directory, free-text parts (comment, labels) with non-ASCII characters / CRLF / trailing blanks, and
+    whether the histogram is written as it is or as a copy.copy / deepcopy / pickle round trip of it"""
+    name = rng.choice(WRITE_NAMES)
+    comment = rng.choice(WRITE_COMMENTS)
+    labels = rng.choice(["plain", "blanks", "non-ascii", "quoting"])
+    if not UTF8:  # non-ASCII text needs a UTF-8 locale (open() without an encoding)
+        name = name if name.isascii() else "x.csv"
+        comment = comment if comment.isascii() else "# C14"
+        labels = "plain" if labels == "non-ascii" else labels
+    return dict(name=name, where=rng.choice(["absolute", "cwd", "cwd"]), comment=comment, labels=labels,
+                copy=rng.choice(COPY_MODES))
 
 
-def check_write(h, tmpdir):
-    """write the returned histogram and read it back; None or (key, what)"""
-    path = os.path.join(tmpdir, "h.csv")
-    labels = [{c: "L_" + c for c in ALL_COLS}]
+def _labels(kind):
+    suffix = {"plain": "", "blanks": "  ", "non-ascii": " \u03b7\u00b1", "quoting": ', "q" '}[kind]
+    return {c: "L_" + c + suffix for c in ALL_COLS}
+
+
+def check_write(h, tmpdir, spec=None):
+    """the caller writes the returned histogram (see gen_write_spec) and reads it back; None or (key, what)"""
+    spec = spec or dict(name="h.csv", where="absolute", comment="# C14", labels="plain", copy=None)
+    d = tempfile.mkdtemp(prefix="w_", dir=tmpdir)
+    cwd0 = os.getcwd()
+    labels = _labels(spec["labels"])
+    txt = f"write_to_file({spec['name']!r} [{spec['where']}], labels {spec['labels']}, comment={spec['comment']!r}" + \
+          (f", on a {spec['copy']} of the histogram" if spec.get("copy") else "") + ")"
     try:
-        h.write_to_file(path, labels, comment="# C14")
-    except Exception as e:  # noqa: BLE001
-        if isinstance(e, IndexError) and np.ndim(h.systematic_error_) == 1:
-            return (WRITE_KEY, f"write_to_file on the histogram returned by BulkObservables raises {type(e).__name__}: {e} "
-                               f"(systematic_error_ has shape {np.shape(h.systematic_error_)} after average())")
-        return (f"write-returned-histogram/raises-{type(e).__name__}", f"write_to_file raises {type(e).__name__}: {e}")
-    rows = [r for r in csv.reader(open(path)) if r]
-    nb = len(h.bin_centers())
-    if len(rows) != nb + 2 or rows[0] != ["# C14"] or rows[1] != ["L_" + c for c in ALL_COLS]:
-        return ("write-returned-histogram/layout", f"unexpected file layout: {rows[:3]}")
-    want = [h.bin_centers(), h.bin_bounds_left(), h.bin_bounds_right(), h.histogram()[0]]
-    for i, r in enumerate(rows[2:]):
-        for c in range(4):
-            if float(r[c]) != float(want[c][i]):
-                return ("write-returned-histogram/cell", f"row {i} column {ALL_COLS[c]}: file {r[c]} != {float(want[c][i])!r}")
-    return None
+        if os.path.dirname(spec["name"]) not in ("", "."):
+            os.makedirs(os.path.join(d, os.path.dirname(spec["name"])))
+        if spec["where"] == "absolute":
+            path = os.path.join(d, spec["name"])
+        else:
+            os.chdir(d)
+            path = spec["name"]
+        h2 = copied(h, spec.get("copy"))
+        before = env_state()
+        try:
+            h2.write_to_file(path, [labels], comment=spec["comment"])
+        except Exception as e:  # noqa: BLE001
+            if isinstance(e, IndexError) and np.ndim(h.systematic_error_) == 1:
+                return (WRITE_KEY, f"write_to_file on the histogram returned by BulkObservables raises {type(e).__name__}: {e} "
+                                   f"(systematic_error_ has shape {np.shape(h.systematic_error_)} after average())")
+            return (f"write-returned-histogram/raises-{type(e).__name__}",
+                    f"the histogram returned by BulkObservables cannot be written: {txt} raises {type(e).__name__}: {e}")
+        after = env_state()
+        diff = [k for k in before if before[k] != after[k]]
+        if diff:
+            return (f"environment-changed:{'+'.join(diff)}:write_to_file", f"{txt} changed process-global state: {diff}")
+        full = os.path.join(d, spec["name"])
+        if not os.path.isfile(full):
+            return ("write-returned-histogram/no-file", f"{txt} returned but there is no file {spec['name']!r} where it was asked for "
+                                                        f"(directory has {sorted(os.listdir(d))})")
+        raw = open(full, "rb").read()
+        prefix = (spec["comment"] + "\n").encode("utf-8") if spec["comment"] != "" else b""
+        if not raw.startswith(prefix):
+            return ("write-returned-histogram/comment", f"{txt}: the file does not start with the comment: {raw[:80]!r}")
+        rows = [r for r in csv.reader(io.StringIO(raw[len(prefix):].decode("utf-8"), newline="")) if r]
+        nb = len(h.bin_centers())
+        if len(rows) != nb + 1 or rows[0] != [labels[c] for c in ALL_COLS]:
+            return ("write-returned-histogram/layout", f"{txt}: unexpected file layout: {rows[:2]}")
+        want = [h.bin_centers(), h.bin_bounds_left(), h.bin_bounds_right(), h.histogram()[0]]
+        for i, r in enumerate(rows[1:]):
+            for c in range(4):
+                if float(r[c]) != float(want[c][i]):
+                    return ("write-returned-histogram/cell", f"{txt}: row {i} column {ALL_COLS[c]}: file {r[c]} != {float(want[c][i])!r}")
+        return None
+    finally:
+        os.chdir(cwd0)
+        shutil.rmtree(d, ignore_errors=True)
 
 
 # every call that raised in THIS process, oldest first: (events, alias, step).  Used only when a violation does not
@@ -994,8 +1229,7 @@ def _session(evs, alias, shared):
     """(particle lists, object, log of failed calls) - a fresh object unless a long-lived one is given"""
     if shared:
         return shared
-    pl = make_particles(evs, alias)
-    return pl, new_bo(pl), []
+    return build_session(evs, alias, None)
 
 
 def failed_call_check(meth, before, after, what):
@@ -1009,7 +1243,8 @@ def failed_call_check(meth, before, after, what):
             dict(changed=changed))
 
 
-def oracle_dn(evs, meth, b, tmpdir=None, alias=None, shared=None, mutate=None, handed=None, form=None, werr=False):
+def oracle_dn(evs, meth, b, tmpdir=None, alias=None, shared=None, mutate=None, handed=None, form=None, werr=False,
+              env=False, wspec="default"):
     """None or (key, what, detail): the property on the real code for one differential-yield call.
     shared = (particle lists, BulkObservables object, log) to run the call on a long-lived object.
     mutate: after all checks the caller modifies the Histogram it was handed (see apply_mutation).
@@ -1017,7 +1252,7 @@ def oracle_dn(evs, meth, b, tmpdir=None, alias=None, shared=None, mutate=None, h
     form: one of CALL_FORMS; werr: warnings are errors during the call (it may then fail midway).
     A call on data for which the quantity does not exist (NaN / raising element) is expected to fail: it is not judged,
     but like every failed call it must leave the object unchanged."""
-    pl, bo, log = _session(evs, alias, shared)
+    pl, bo, log, setup = _session(evs, alias, shared)
     try:
         q = quantity_values(pl, DN_METHODS[meth])
         valid = not any(v != v or abs(v) == float("inf") for e in q for v in e)
@@ -1027,11 +1262,15 @@ def oracle_dn(evs, meth, b, tmpdir=None, alias=None, shared=None, mutate=None, h
     if not edges_contract(meth, b, edges):
         return None
     before = observe(bo, pl)
-    real = call_dn(pl, meth, b, bo, form, werr)
+    real = call_dn(pl, meth, b, bo, form, werr, env)
     after = observe(bo, pl)
-    btxt = f"{b.get('flavour', b['kind'])} {bins_arg(b)!r}" + (f" [{form}]" if form else "") + (" [warnings=error]" if werr else "")
+    btxt = f"{b.get('flavour', b['kind'])} {bins_arg(b)!r}" + (f" [{form}]" if form else "") + (" [warnings=error]" if werr else "") + \
+        (" [unusual environment]" if env else "") + ("" if is_plain(setup) else f" [setup {setup}]")
     if after[0] != before[0]:
         return (f"input-modified/{meth}", f"{meth} modified the particle lists passed in", {})
+    r = env_check(meth, f"{meth}({btxt})")
+    if r:
+        return r
     raised = real[0] != "ok" and not str(real[1]).startswith("shape")
     if raised:
         log.append(meth)
@@ -1039,7 +1278,7 @@ def oracle_dn(evs, meth, b, tmpdir=None, alias=None, shared=None, mutate=None, h
         r = failed_call_check(meth, before, after, f"{meth}({btxt})")
         if r:
             return r
-    if rejected(b, real) or not valid or (werr and raised):
+    if rejected(b, real) or refused(setup, real) or not valid or (werr and raised):
         return None  # the statement speaks about particles that have the quantity / a caller-provoked failure
     btxt = f"{b.get('flavour', b['kind'])} {bins_arg(b)!r}"
     if real[0] != "ok":
@@ -1064,9 +1303,8 @@ def oracle_dn(evs, meth, b, tmpdir=None, alias=None, shared=None, mutate=None, h
     hb = [float(x) for x in h.bin_boundaries()]
     if hb != edges:
         return (f"{meth}/bin-edges", f"{meth}({btxt}) returned a histogram with edges {hb}, the binning asked for has {edges}", {})
-    _WRITE_TICK[0] += 1
-    if tmpdir is not None and _WRITE_TICK[0] % 3 == 0:  # every third returned histogram is written and read back
-        r = check_write(h, tmpdir)
+    if tmpdir is not None and wspec:  # the caller writes the histogram and reads it back
+        r = check_write(h, tmpdir, None if wspec == "default" else wspec)
         if r:
             return (r[0], r[1], {})
     if mutate:
@@ -1076,8 +1314,8 @@ def oracle_dn(evs, meth, b, tmpdir=None, alias=None, shared=None, mutate=None, h
     return None
 
 
-def oracle_mid(evs, meth, w, flavour, alias=None, shared=None, form=None, werr=False):
-    pl, bo, log = _session(evs, alias, shared)
+def oracle_mid(evs, meth, w, flavour, alias=None, shared=None, form=None, werr=False, env=False):
+    pl, bo, log, setup = _session(evs, alias, shared)
     try:
         y = quantity_values(pl, flavour)
         x = quantity_values(pl, MID_METHODS[meth]) if MID_METHODS[meth] else None
@@ -1087,17 +1325,20 @@ def oracle_mid(evs, meth, w, flavour, alias=None, shared=None, form=None, werr=F
         valid = False
     valid = valid and isinstance(w, (int, float)) and not isinstance(w, bool) and w > 0
     before = observe(bo, pl)
-    real = call_mid(pl, meth, w, flavour, bo=bo, form=form, werr=werr)
+    real = call_mid(pl, meth, w, flavour, bo=bo, form=form, werr=werr, env=env)
     after = observe(bo, pl)
     if after[0] != before[0]:
         return (f"input-modified/{meth}", f"{meth} modified the particle lists passed in", {})
+    r = env_check(meth, f"{meth}({w!r}, {flavour!r})")
+    if r:
+        return r
     if real[0] != "ok":
         log.append(meth)
         note_failed(evs, alias, dict(method=meth, y_width=w, quantity=flavour, form=form, werr=werr))
         r = failed_call_check(meth, before, after, f"{meth}({w!r}, {flavour!r})" + (" [warnings=error]" if werr else ""))
         if r:
             return r
-    if not valid or (werr and real[0] != "ok"):
+    if not valid or (werr and real[0] != "ok") or refused(setup, real):
         return None
     first_empty = len(evs) > 0 and len(evs[0]) == 0
     any_empty = any(len(e) == 0 for e in evs)
@@ -1119,7 +1360,7 @@ def oracle_mid(evs, meth, w, flavour, alias=None, shared=None, form=None, werr=F
 
 def run_error_step(evs, step, alias=None, shared=None):
     """a call that must fail because of its arguments; caught the way a caller would; the object must be unchanged"""
-    pl, bo, log = _session(evs, alias, shared)
+    pl, bo, log, setup = _session(evs, alias, shared)
     kind, mk = ERR_STEPS[step["error"]]
     before = observe(bo, pl)
     try:
@@ -1137,9 +1378,9 @@ def run_call(evs, call, tmpdir=None, alias=None, shared=None, handed=None):
         return run_error_step(evs, call, alias, shared)
     if call["method"] in DN_METHODS:
         return oracle_dn(evs, call["method"], call["bins"], tmpdir, alias, shared, call.get("mutate"), handed,
-                         call.get("form"), bool(call.get("werr")))
+                         call.get("form"), bool(call.get("werr")), bool(call.get("env")), call.get("write", "default"))
     return oracle_mid(evs, call["method"], call["y_width"], call["quantity"], alias, shared,
-                      call.get("form"), bool(call.get("werr")))
+                      call.get("form"), bool(call.get("werr")), bool(call.get("env")))
 
 
 def check_handed(handed):
@@ -1158,18 +1399,18 @@ class Sessions:
     """the long-lived objects of one history: object 0 holds the sample as given (poison elements included), object 1
     (created on first use) holds the same sample without the poison elements - it shares the class, not the data"""
 
-    def __init__(self, evs, alias=None, ctor_form="positional"):
+    def __init__(self, evs, alias=None, setup="positional"):
         self.evs = [evs, strip_poison(evs)]
         self.alias = [alias, None if has_poison(evs) else alias]
-        self.ctor_form = ctor_form
+        self.setup = norm_setup(setup)
+        self.ctor_form = self.setup["ctor_form"]
         self.s = [None, None]
         self.log = []
         self.handed = []
 
     def get(self, k):
         if self.s[k] is None:
-            pl = make_particles(self.evs[k], self.alias[k])
-            self.s[k] = (pl, new_bo(pl, self.ctor_form), self.log)
+            self.s[k] = build_session(self.evs[k], self.alias[k], self.setup, self.log)
         return self.evs[k], self.alias[k], self.s[k]
 
     def step(self, call, tmpdir=None):
@@ -1180,18 +1421,30 @@ class Sessions:
         return r or check_handed(self.handed)
 
 
-def run_history(evs, history, alias=None, tmpdir=None, ctor_form="positional"):
+def run_history(evs, history, alias=None, tmpdir=None, setup="positional"):
     """all steps of `history` in a row on ONE long-lived BulkObservables object (steps with "obj": 1 on a second one);
     -> (index, result, number of steps that raised before it) of the first failing step, or None.
     A step may carry "mutate" (the caller modifies the Histogram it got, after it was checked), "form" (call form),
     "werr" (warnings are errors during the call), "error" (a call with invalid arguments, see ERR_STEPS)."""
-    ss = Sessions(evs, alias, ctor_form)
+    ss = Sessions(evs, alias, setup)
     for i, call in enumerate(history):
         nraised = len(ss.log)
         r = ss.step(call, tmpdir)
         if r:
             return i, r, nraised
     return None
+
+
+def decorate_step(rng, c):
+    """round-4 devices on one valid call: now and then it runs in an unusual environment, and the histogram it returns
+    is written to a file by the caller in one of the ways of gen_write_spec"""
+    if c.get("error"):
+        return c
+    if rng.random() < 0.2:
+        c["env"] = True
+    if c["method"] in DN_METHODS:
+        c["write"] = gen_write_spec(rng) if rng.random() < 0.3 else None
+    return c
 
 
 def build_history(rng, calls, pl):
@@ -1241,6 +1494,8 @@ def build_history(rng, calls, pl):
     for _ in range(rng.randint(1, 3)):  # valid calls on ANOTHER object, somewhere in the second half
         c = dict(rng.choice(calls), obj=1, form=rng.choice(CALL_FORMS))
         hist.insert(rng.randrange(len(hist) // 2, len(hist) + 1), c)
+    for c in hist:
+        decorate_step(rng, c)
     return hist
 
 
@@ -1292,7 +1547,8 @@ def run_input(inp, tmpdir=None):
     """the replay of one recorded input: (step index or None, result or None, earlier raised steps)"""
     run_prelude(inp.get("prelude"))
     if "history" in inp:
-        rr = run_history(inp["events"], inp["history"], inp.get("alias"), tmpdir, inp.get("ctor_form", "positional"))
+        rr = run_history(inp["events"], inp["history"], inp.get("alias"), tmpdir,
+                         inp.get("setup") or inp.get("ctor_form", "positional"))
         return rr if rr else (None, None, 0)
     call = inp["call"]
     r = run_call(inp["events"], call, tmpdir if call["method"] in DN_METHODS and not call.get("error") else None,
@@ -1378,14 +1634,14 @@ def search(ctx, budget_s):
         if r[0] in seen:
             return
         seen.add(r[0])
-        if do_shrink and r[0] != WRITE_KEY:
+        if do_shrink and not r[0].startswith(("write-", "environment-changed")):
             small, al = shrink(evs, call, r[0], alias)
             r2 = run_call(small, call, alias=al)
             if r2 and r2[0] == r[0]:
                 evs, alias, r = small, al, r2
         emit(r[0], r[1], dict(events=evs, alias=alias, call=call), r[2], "./check C14 --replay <this file>")
 
-    def report_reuse(evs, alias, history, r, ctor_form="positional"):
+    def report_reuse(evs, alias, history, r, setup="positional"):
         """a failure inside a history on long-lived objects: minimise the history (drop steps that are not needed), shrink
         the events, name it: a failed call that changed the object keeps its own key; a wrong answer after at least one
         failed call is `instance-reuse-after-error-...`, otherwise `instance-reuse-...`; a history that shrinks to the
@@ -1398,24 +1654,24 @@ def search(ctx, budget_s):
         i = 0
         while i < len(hist) - 1:
             cand = hist[:i] + hist[i + 1:]
-            rr = run_history(evs, cand, alias, None, ctor_form)
+            rr = run_history(evs, cand, alias, tmpdir, setup)
             if rr and rr[0] == len(cand) - 1 and rr[1][0] == r[0]:
                 hist = cand
             else:
                 i += 1
 
         def still(c, al=None):
-            rr = run_history(c, hist, al, None, ctor_form)
+            rr = run_history(c, hist, al, tmpdir, setup)
             return bool(rr) and rr[0] == len(hist) - 1 and rr[1][0] == r[0]
 
         evs, alias = shrink(evs, None, None, alias, fails=still)
-        rr = run_history(evs, hist, alias, None, ctor_form)
+        rr = run_history(evs, hist, alias, tmpdir, setup)
         nraised = 0
         if rr:
             r, nraised = rr[1], rr[2]
         last = hist[-1]
         if len(hist) == 1 and not last.get("error") and int(last.get("obj", 0)) == 0 and not has_poison(evs) and \
-                (ctor_form == "positional" or run_call(evs, last, alias=alias) is not None):
+                (is_plain(setup) or run_call(evs, last, tmpdir, alias=alias) is not None):
             if r[0] not in seen:
                 seen.add(r[0])
                 emit(r[0], r[1], dict(events=evs, alias=alias, call=last), r[2], "./check C14 --replay <this file>")
@@ -1433,17 +1689,17 @@ def search(ctx, budget_s):
         if key in seen:
             return
         seen.add(key)
-        emit(key, what, dict(events=evs, alias=alias, history=hist, ctor_form=ctor_form), r[2],
+        emit(key, what, dict(events=evs, alias=alias, history=hist, setup=norm_setup(setup)), r[2],
              "./check C14 --replay <this file>  (runs the whole history in a new process: steps with 'error' / 'werr' are "
              "expected to raise and are caught, 'obj': 1 is a second object, 'prelude' = earlier failed calls on other objects)")
 
     try:
         for case in corpus():
             if "history" in case:
-                rr = run_history(case["events"], case["history"], case.get("alias"), tmpdir, case.get("ctor_form", "positional"))
+                st = case.get("setup") or case.get("ctor_form", "positional")
+                rr = run_history(case["events"], case["history"], case.get("alias"), tmpdir, st)
                 if rr:
-                    report_reuse(case["events"], case.get("alias"), case["history"][:rr[0] + 1], rr[1],
-                                 case.get("ctor_form", "positional"))
+                    report_reuse(case["events"], case.get("alias"), case["history"][:rr[0] + 1], rr[1], st)
             else:
                 r = run_call(case["events"], case["call"], tmpdir if case["call"]["method"] in DN_METHODS else None,
                              alias=case.get("alias"))
@@ -1479,17 +1735,24 @@ def search(ctx, budget_s):
             # fresh object per call, each call in a random call form (constructor included)
             for call in calls:
                 c = dict(call, form=rng.choice(CALL_FORMS))
-                ss = Sessions(evs, alias, rng.choice(["positional", "keyword"]))
+                decorate_step(rng, c)
+                ss = Sessions(evs, alias, gen_setup(rng, plain=rng.random() < 0.5))
+                ctx.count(f"oracle/setup/container={ss.setup['container']}")
+                ctx.count(f"oracle/setup/input={ss.setup['input_copy'] or 'as-is'}/object={ss.setup['bo_copy'] or 'as-is'}")
+                if c.get("env"):
+                    ctx.count("oracle/unusual-environment")
+                if c.get("write"):
+                    ctx.count(f"oracle/write/{c['write']['where']}/{'bare-name' if os.path.dirname(c['write']['name']) == '' else 'with-directory'}")
                 r = ss.step(c, tmpdir)
                 ctx.case(("oracle", json.dumps(c), json.dumps(evs), json.dumps(alias)), len(evs) >= 2)
                 ctx.count(f"oracle/call-form/{c['form']}")
                 if call["method"] in DN_METHODS:
                     ctx.count(f"oracle/{call['method']}/bins={call['bins']['flavour']}")
                 if r:
-                    if ss.ctor_form == "positional" and run_call(evs, c, alias=alias):
+                    if is_plain(ss.setup) or run_call(evs, c, tmpdir, alias=alias):
                         report(evs, alias, c, r)
                     else:
-                        report_reuse(evs, alias, [c], r, ss.ctor_form)
+                        report_reuse(evs, alias, [c], r, ss.setup)
             ctx.count(f"oracle-sample/{tag}")
             # every second sample: a perturbed call sequence (build_history) on long-lived objects; half of these samples
             # carry poison elements (first / middle / last position) that make SOME calls raise midway
@@ -1499,8 +1762,8 @@ def search(ctx, budget_s):
                 if alias is None and evs and rng.random() < 0.5:
                     hevs = inject_poison(rng, evs)
                     ctx.count("oracle-reuse/sample-with-poison-elements")
-                ctor_form = rng.choice(["positional", "keyword"])
-                ss = Sessions(hevs, alias, ctor_form)
+                setup = gen_setup(rng, plain=rng.random() < 0.4)
+                ss = Sessions(hevs, alias, setup)
                 history = []
                 for call in full:
                     history.append(call)
@@ -1515,15 +1778,13 @@ def search(ctx, budget_s):
                     elif nr and not call.get("error"):
                         ctx.count("oracle-reuse/valid-call-after-failed-call" + ("/other-object" if call.get("obj") else ""))
                     if r:
-                        report_reuse(hevs, alias, history, r, ctor_form)
+                        report_reuse(hevs, alias, history, r, setup)
                         break
                 ctx.count("oracle-sample/reused-object-history")
                 ctx.count("oracle-reuse/calls", len(history))
             n += 1
     finally:
-        for f in os.listdir(tmpdir):
-            os.unlink(os.path.join(tmpdir, f))
-        os.rmdir(tmpdir)
+        shutil.rmtree(tmpdir, ignore_errors=True)
     ctx.cov["oracle_samples"] = n
     ctx.count("oracle-samples", n)
 
@@ -1550,9 +1811,7 @@ def replay(ctx, path):
             print(f"[C14] step {i + 1} of {len(inp['history'])} on the long-lived object(s) fails "
                   f"({nraised} earlier step(s) raised and were caught)")
     finally:
-        for f in os.listdir(tmpdir):
-            os.unlink(os.path.join(tmpdir, f))
-        os.rmdir(tmpdir)
+        shutil.rmtree(tmpdir, ignore_errors=True)
     if r:
         print(f"VIOLATION property=C14 replay={path}")
         print(r[1])
